@@ -87,11 +87,15 @@ Theorem C13_float_range_refuted :
   parse_query 400 (doc_text 4 s_1e309) = Err E_SYNTAX /\ known_class 4 s_1e309 = 5.
 Proof. exact float_range_refuted. Qed.
 
-Theorem C13_repeatable_refuted :
-  parse_schema 400 s_dir_plain = Ok [SDirective None [100] [] true [[70;73;69;76;68]]] /\
-  spec_schema 400 s_dir_plain = Ok [SDirective None [100] [] false [[70;73;69;76;68]]] /\
-  known_class_sdl s_dir_plain = 6.
-Proof. exact repeatable_refuted. Qed.
+(* repaired finding directive-always-repeatable: the flag is the keyword's presence,
+   model = specification on both forms *)
+Theorem C13_repeatable_flag :
+  parse_schema 400 s_dir_plain = Ok [SDirective None [100] [] false [[70;73;69;76;68]]] /\
+  parse_schema 400 s_dir_rep = Ok [SDirective None [100] [] true [[70;73;69;76;68]]] /\
+  spec_schema 400 s_dir_plain = parse_schema 400 s_dir_plain /\
+  spec_schema 400 s_dir_rep = parse_schema 400 s_dir_rep /\
+  known_class_sdl s_dir_plain = 0.
+Proof. exact repeatable_flag. Qed.
 
 Theorem C13_vardef_order_refuted :
   (exists d, spec_expect 6 s_tail_spec = Some (Ok d)) /\
@@ -137,7 +141,7 @@ Print Assumptions C13_block_blank_refuted.
 Print Assumptions C13_type_ws_refuted.
 Print Assumptions C13_token_boundary_refuted.
 Print Assumptions C13_float_range_refuted.
-Print Assumptions C13_repeatable_refuted.
+Print Assumptions C13_repeatable_flag.
 Print Assumptions C13_vardef_order_refuted.
 Print Assumptions C13_enum_value_prefix_refuted.
 Print Assumptions C13_sdl_kitchen_sink.
